@@ -99,9 +99,15 @@ def slice_bound_aliases(fn):
         else:
             pairs = [(t, v)]
         for tt, vv in pairs:
+            if isinstance(vv, ast.BoolOp) and isinstance(vv.op, ast.Or) \
+                    and isinstance(vv.values[0], ast.Attribute):
+                vv = vv.values[0]  # `<x>.step or 1`
             if isinstance(tt, ast.Name) and isinstance(vv, ast.Attribute) \
                     and vv.attr in ("start", "stop", "step"):
                 out[tt.id] = vv.attr
+            elif isinstance(tt, ast.Name) and isinstance(vv, ast.Name) \
+                    and vv.id in out:
+                out[tt.id] = out[vv.id]
     return out
 
 
